@@ -65,9 +65,12 @@ func (f *fClient) readLoop() {
 			atomic.StoreInt32(&f.closed, 1)
 			return
 		}
+		if p.first>>4 == 3 && len(f.rx) > cap(f.rx)/2 {
+			continue // nobody is interested in bulk traffic; keep room for control packets
+		}
 		select {
 		case f.rx <- p:
-		default: // nobody is interested in bulk traffic
+		default:
 		}
 	}
 }
@@ -166,6 +169,27 @@ func (fr *faultRun) witness() string {
 		}
 	}
 	return ""
+}
+
+// ping: the client must get a PINGRESP (everything else it receives meanwhile is bulk traffic)
+func (fr *faultRun) ping(f *fClient) string {
+	if err := fr.write(f, []byte{0xc0, 0}, time.Second); err != nil {
+		return ""
+	}
+	deadline := time.After(faultDeadline)
+	for {
+		select {
+		case p := <-f.rx:
+			if p.first == 0xd0 {
+				return ""
+			}
+		case <-deadline:
+			if atomic.LoadInt32(&f.closed) == 1 {
+				return "" // it was closed for a reason of its own (handled by the step's expectations)
+			}
+			return fmt.Sprintf("client %s, which did nothing wrong, is no longer served (no PINGRESP within %v) although nobody who stopped reading is left", f.name, faultDeadline)
+		}
+	}
 }
 
 func waitStop(svc uint64, d time.Duration) bool {
@@ -387,6 +411,19 @@ func runFaults(sc *fScenario) (string, string) {
 		if !fr.closedS {
 			if d := fr.witness(); d != "" {
 				return fmt.Sprintf("%s: %s", where, d), "C05"
+			}
+			// bystanders: whatever happened to somebody else, a client that is still connected and reads is
+			// still served once nobody who has stopped reading holds up a delivery (C05: only the offender is affected)
+			if st.Free {
+				for _, name := range []string{"P", "S"} {
+					b := fr.cl[name]
+					if b == nil || b.cut || atomic.LoadInt32(&b.closed) == 1 || atomic.LoadInt32(&b.reading) == 0 || name == st.C && st.Gone {
+						continue
+					}
+					if d := fr.ping(b); d != "" {
+						return fmt.Sprintf("%s: %s", where, d), "C05"
+					}
+				}
 			}
 		}
 	}
